@@ -301,6 +301,37 @@ func ruleOptSetter(p *Prog, r *Report) {
 	r.Floor(rule, 20)
 }
 
+// ruleOptSetterFor checks only the setters of the named option variables (the options one property's behaviour is stated over).
+func ruleOptSetterFor(vars []string) func(p *Prog, r *Report) {
+	return func(p *Prog, r *Report) {
+		const rule = "OPT.setter"
+		want := map[string]bool{}
+		for _, v := range vars {
+			want[v] = true
+		}
+		for _, sp := range setterSpecs {
+			if !want[sp.Var] {
+				continue
+			}
+			fn := p.Fn(sp.Fn)
+			g := p.Globals[sp.Var]
+			if fn == nil {
+				r.Anchor(rule, sp.Fn)
+				continue
+			}
+			if g == nil {
+				r.Anchor(rule, sp.Var)
+				continue
+			}
+			checkSetter(p, r, rule, fn, g, sp)
+		}
+		if want["mxj.attrPrefix"] {
+			checkPrepend(p, r, rule)
+		}
+		r.Floor(rule, len(vars))
+	}
+}
+
 // lastStore returns the value last stored to g along the path (nil if none) and whether any store happened.
 func lastStore(path cfgPath, g ssa.Value) (ssa.Value, *ssa.Store) {
 	var val ssa.Value
@@ -398,6 +429,12 @@ func matchPatternT(cz *canonizer, pat string, val ssa.Value, path cfgPath, targe
 		u, ok := v.(*ssa.UnOp)
 		return ok && u.Op == token.MUL && u.X == target
 	}
+	return matchPatternV(cz, pat, val, path, isLoad, variadic)
+}
+
+// matchPatternV: isLoad recognises "the current value of the option" (a load of the variable, or the parameter of a helper that
+// receives it).
+func matchPatternV(cz *canonizer, pat string, val ssa.Value, path cfgPath, isLoad func(ssa.Value) bool, variadic *ssa.Parameter) bool {
 	switch {
 	case pat == "same":
 		if val == nil {
@@ -485,6 +522,83 @@ func checkSetter(p *Prog, r *Report, rule string, fn *ssa.Function, g *ssa.Globa
 				}
 				if tp != nil && (va == nil || vp != nil) {
 					fn, target, va = h, tp, vp
+				}
+			}
+		}
+	}
+	// … or in a helper that computes the new value from the current one and the argument list: g = h(g, b)
+	if direct && len(fn.Blocks) == 1 && va != nil {
+		var st *ssa.Store
+		nst := 0
+		eachInstr(fn, func(b *ssa.BasicBlock, in ssa.Instruction) {
+			if s2, ok := in.(*ssa.Store); ok && s2.Addr == ssa.Value(g) {
+				st = s2
+				nst++
+			}
+		})
+		if nst == 1 {
+			if c, ok := st.Val.(*ssa.Call); ok {
+				if h := staticCallee(&c.Call); h != nil && p.InModule(h) && !p.Exported(h) && len(h.Blocks) > 0 {
+					var cur, vp *ssa.Parameter
+					for i, a := range c.Call.Args {
+						if i >= len(h.Params) {
+							continue
+						}
+						if globalOf(a) == g {
+							cur = h.Params[i]
+						}
+						if a == ssa.Value(va) {
+							vp = h.Params[i]
+						}
+					}
+					hpaths, hok := enumPaths(h, 4096)
+					if cur != nil && vp != nil && hok {
+						hcz := p.canonFor(h)
+						isCur := func(v ssa.Value) bool { return v == ssa.Value(cur) }
+						names := []string{"no argument", "one argument", "two arguments", "three arguments"}
+						for ci, n := range []int64{0, 1, 2, 3} {
+							idx := ci
+							if idx > 2 {
+								idx = 2
+							}
+							pats := sp.Classes[idx]
+							construct := fmt.Sprintf("%s on %s", sp.Var, names[ci])
+							feasible, okAll, why := 0, true, ""
+							for _, path := range hpaths {
+								if !lenClassFeasible(hcz, path, vp, n) {
+									continue
+								}
+								last := path.Blocks[len(path.Blocks)-1]
+								ret, isRet := last.Instrs[len(last.Instrs)-1].(*ssa.Return)
+								if !isRet || len(ret.Results) != 1 {
+									continue
+								}
+								feasible++
+								rv := phiValueOnPath(ret.Results[0], path.Blocks)
+								matched := false
+								for _, pat := range pats {
+									if pat == "same" && isCur(rv) {
+										matched = true
+									} else if pat != "same" && matchPatternV(hcz, pat, rv, path, isCur, vp) {
+										matched = true
+									}
+								}
+								if !matched {
+									okAll = false
+									why = fmt.Sprintf("documented: %s; expected one of %v, the helper %s yields %s", sp.Doc, pats, p.Name(h), hcz.of(rv))
+								}
+							}
+							switch {
+							case feasible == 0:
+								r.Unknown(rule, sp.Fn, construct, p.Pos(fn.Pos()), "no feasible path for this argument count")
+							case okAll:
+								r.OK(rule, sp.Fn, construct, p.Pos(fn.Pos()), fmt.Sprintf("all %d feasible paths of %s return %v, and the result is stored", feasible, p.Name(h), pats))
+							default:
+								r.Bad(rule, sp.Fn, construct, p.Pos(fn.Pos()), why)
+							}
+						}
+						return
+					}
 				}
 			}
 		}
@@ -865,8 +979,18 @@ func ruleOptExcl(p *Prog, r *Report) {
 				if lastDec < 0 {
 					continue // decoder flag untouched on this path
 				}
-				if lv, _ := lastStore(path, dec); lv != nil {
+				if lv, lst := lastStore(path, dec); lv != nil {
 					if b, isc := constBool(lv); isc && !b {
+						continue
+					}
+					// the value stored is tested on this path and found false (escape := …; flag = escape; if escape { … })
+					storedFalse := false
+					for _, c := range path.Conds {
+						if tv, val := boolTest(c); !val && lst != nil && (tv == lst.Val || tv == lv) {
+							storedFalse = true
+						}
+					}
+					if storedFalse {
 						continue
 					}
 				}
@@ -1017,7 +1141,7 @@ func rulePairDerived(p *Prog, r *Report) {
 			good, why = false, "a path changes disableTrimWhiteSpace without recomputing trimRunes"
 			continue
 		}
-		s, isc := constString(val)
+		s, isc := constStringOnPath(val, path.Blocks)
 		if !isc {
 			good, why = false, "trimRunes stored with a non-constant"
 			continue
@@ -1058,6 +1182,23 @@ func rulePairDerived(p *Prog, r *Report) {
 	} else {
 		r.Bad(rule, p.Name(fn), "trimRunes follows disableTrimWhiteSpace", p.Pos(fn.Pos()), why)
 	}
+}
+
+// constStringOnPath: the constant a string expression denotes on one path: constants, phis resolved along the path, and
+// concatenations of such.
+func constStringOnPath(v ssa.Value, path []*ssa.BasicBlock) (string, bool) {
+	v = phiValueOnPath(v, path)
+	if s, ok := constString(v); ok {
+		return s, true
+	}
+	if bo, ok := v.(*ssa.BinOp); ok && bo.Op == token.ADD {
+		a, ok1 := constStringOnPath(bo.X, path)
+		b, ok2 := constStringOnPath(bo.Y, path)
+		if ok1 && ok2 {
+			return a + b, true
+		}
+	}
+	return "", false
 }
 
 func indexIn(in ssa.Instruction) int {
